@@ -599,7 +599,7 @@ func (v *VMValue) toStringRaw(ri *recursionInfo) string {
 
 		var items []string
 		dd, _ := v.ReadDictData()
-		dd.Dict.Range(func(key string, value *VMValue) bool {
+		dd.Dict.RangeSorted(func(key string, value *VMValue) bool {
 			txt := value.toReprRaw(ri)
 			// txt := ""
 			// if value.TypeId == VMTypeArray {
